@@ -29,6 +29,7 @@ func runC09(c *fw.Ctx) {
 	r94(c)
 	r95(c)
 	r96(c)
+	r97(c)
 }
 
 // genPkgExpr: expression denotes the generated package's *types.Package (X.Types with X a *Package, or a local alias of it).
@@ -716,4 +717,88 @@ func r96(c *fw.Ctx) {
 	}
 	c.Check(nNormal > 0 && nDirty == nNormal, rule, "newImport/marks-file-dirty-on-every-path", fd.Pos(),
 		"%d of %d normal paths of newImport mark the file dirty: a reference to an import whose identifier already exists (built and discarded before an earlier write) is emitted without its import", nDirty, nNormal)
+}
+
+// R9.7: the usage visitor that marks imports at write time sees every child that can hold a package
+// reference. An arm of astVisitor.Visit that handles a node kind itself (walks selected children and returns
+// nil) must walk every child field of that node that is syntax (implements ast.Node, or a slice of such),
+// apart from comments and declared names. The field set comes from the go/ast struct, not from a list.
+func r97(c *fw.Ctx) {
+	const rule = "R9.7"
+	fd, p := needDecl(c, rule, "(*astVisitor).Visit")
+	if fd == nil {
+		return
+	}
+	info := p.TypesInfo
+	astPkg := c.ByPath["go/ast"]
+	if astPkg == nil {
+		c.Undecided(rule, "anchor/go/ast", fd.Pos(), "go/ast not loaded")
+		return
+	}
+	nodeIface, _ := astPkg.Types.Scope().Lookup("Node").Type().Underlying().(*types.Interface)
+	isSyntax := func(t types.Type) bool {
+		if sl, ok := t.Underlying().(*types.Slice); ok {
+			t = sl.Elem()
+		}
+		if namedIs(t, "go/ast", "CommentGroup") || namedIs(t, "go/ast", "Comment") || namedIs(t, "go/ast", "Ident") || namedIs(t, "go/ast", "BasicLit") {
+			return false
+		}
+		return types.Implements(t, nodeIface)
+	}
+	exceptions := map[string]string{
+		"FuncDecl.Recv": "a receiver names a type of the package being generated (methods cannot be declared on imported types); its type arguments are type parameter names",
+	}
+	n := 0
+	ast.Inspect(fd.Body, func(m ast.Node) bool {
+		cc, ok := m.(*ast.CaseClause)
+		if !ok || len(cc.List) != 1 {
+			return true
+		}
+		t := info.TypeOf(cc.List[0])
+		ptr, ok := t.(*types.Pointer)
+		if !ok {
+			return true
+		}
+		named, ok := ptr.Elem().(*types.Named)
+		if !ok || named.Obj().Pkg() == nil || named.Obj().Pkg().Path() != "go/ast" {
+			return true
+		}
+		st, ok := named.Underlying().(*types.Struct)
+		if !ok {
+			return true
+		}
+		// does the arm hand the node back to the generic walk (return p)? then every child is visited
+		generic := false
+		walked := map[string]bool{}
+		ast.Inspect(cc, func(k ast.Node) bool {
+			if r, ok := k.(*ast.ReturnStmt); ok && len(r.Results) == 1 {
+				if tv, ok := info.Types[r.Results[0]]; ok && !tv.IsNil() {
+					generic = true
+				}
+			}
+			if se, ok := k.(*ast.SelectorExpr); ok {
+				if id, ok := unparen(se.X).(*ast.Ident); ok && info.Uses[id] == info.Implicits[cc] {
+					walked[se.Sel.Name] = true
+				}
+			}
+			return true
+		})
+		// an arm without body falls out of the switch to `return nil`
+		for i := 0; i < st.NumFields(); i++ {
+			f := st.Field(i)
+			if !isSyntax(f.Type()) {
+				continue
+			}
+			key := named.Obj().Name() + "." + f.Name()
+			n++
+			if why, ok := exceptions[key]; ok {
+				c.OK(rule, "Visit/"+key+"/excepted", cc.Pos(), "%s", why)
+				continue
+			}
+			c.Check(generic || walked[f.Name()], rule, "Visit/"+key, cc.Pos(),
+				"the visitor handles *ast.%s itself but never looks at its %s: a package referenced only there (e.g. `type G[T fmt.Stringer] struct{}`) is not marked used and its import is dropped", named.Obj().Name(), f.Name())
+		}
+		return true
+	})
+	c.Floor(rule, "syntax children of specially handled nodes", n, 6)
 }
